@@ -114,8 +114,9 @@ def parse_alternatives(p):
     return alts
 
 
-def _newline_chain(f, operand):
-    """operand == input.replace("\\r\\n", "\\n").replace('\\n', &line_ending_character(..)) (through into/deref)"""
+def _newline_chain_root(f, operand):
+    """if operand == X.replace("\\r\\n", "\\n").replace('\\n', &line_ending_character(..)) (through into/deref),
+    return the operand X (innermost receiver), else None"""
     def consts(o):
         return [r[1] for r in provenance(f, o, through=None) if r[0] == "const"]
 
@@ -128,20 +129,46 @@ def _newline_chain(f, operand):
         return None
     outer = replace_call(operand)
     if outer is None:
-        return False
+        return None
     if consts(outer["args"][1]) not in (["v:\n"], ["s:\n"]):
-        return False
+        return None
     rp = provenance(f, outer["args"][2])
     if "context::line_ending_character" not in prov_calls(rp) or [r for r in rp if r[0] == "const"]:
-        return False
+        return None
     inner = replace_call(outer["args"][0])
     if inner is None:
-        return False
+        return None
     if consts(inner["args"][1]) != ["s:\r\n"] or consts(inner["args"][2]) != ["s:\n"]:
-        return False
-    # the innermost receiver is the token's own literal
-    ap = access_path(f, inner["args"][0])
-    return ap[1][-2:] == (("v", "StringLiteral"), ("f", "literal")) or ap[1][-1:] == (("f", "literal"),)
+        return None
+    return inner["args"][0]
+
+
+def _is_literal_path(f, o):
+    ap = access_path(f, o)
+    return ap[1][-2:] == (("v", "StringLiteral"), ("f", "literal")) or ap[1][-1:] in ((("f", "literal"),), (("f", "comment"),))
+
+
+def _newline_chain(f, operand):
+    """the literal is normalised CRLF -> LF and then converted to the configured ending, inline or through a
+    local helper whose body is exactly that chain applied to one of its parameters"""
+    root = _newline_chain_root(f, operand)
+    if root is not None:
+        return _is_literal_path(f, root)
+    for r in provenance(f, operand):
+        if r[0] == "call":
+            h = f.prog.fn(f.crate, r[1])
+            if h is None:
+                continue
+            hr = _newline_chain_root(h, {"cp": {"l": 0}})
+            if hr is None:
+                continue
+            ap = access_path(h, hr)
+            if ap[0][0] != "arg" or ap[1]:
+                continue
+            t = f.blocks[r[2]]["term"]
+            if ap[0][1] - 1 < len(t["args"]) and _is_literal_path(f, t["args"][ap[0][1] - 1]):
+                return True
+    return False
 
 
 def rule_regex(ctx, prop):
